@@ -25,7 +25,7 @@ if __package__ in (None, ""):
     sys.path.insert(0, os.path.dirname(os.path.dirname(os.path.abspath(__file__))))
 from bounded import harness  # noqa: E402  (sets sys.path for /repo)
 from bounded import corpus  # noqa: E402
-from bounded.treecheck import wf, hash_ok, fingerprint, fp_diff, canon, nodes, children  # noqa: E402
+from bounded.treecheck import wf, hash_ok, hash_check, fingerprint, fp_diff, canon, nodes, children  # noqa: E402
 
 import sqlglot  # noqa: E402
 from sqlglot import exp, parse_one  # noqa: E402
@@ -347,8 +347,9 @@ def _site(op, problem_site):
 
 
 def check_state(res, op, inp):
-    """contract evaluation after an op -> list of violation dicts."""
+    """contract evaluation after an op -> (list of violation dicts, from-scratch hash of the new root or None)."""
     out = []
+    fresh = None
 
     def add(clause, what, site):
         out.append({"key": f"c08:{clause}:{op[0]}:{site}", "what": what, "input": inp})
@@ -359,13 +360,16 @@ def check_state(res, op, inp):
             continue
         for clause, what, site in wf(t, root_detached=det):
             add(clause, f"[{label}] {what}", _site(op, site) if label in ("root",) else f"{_site(op, site)}/{label}")
-        for clause, what, site in hash_ok(t):
+        problems, fh = hash_check(t, want_fresh=(label == "root"))
+        if label == "root":
+            fresh = fh
+        for clause, what, site in problems:
             if clause == "unhashable":
                 continue
             add(clause, f"[{label}] {what}", _site(op, site) if label in ("root",) else f"{_site(op, site)}/{label}")
     for clause, what, site in res.notes:
         add(clause, what, site)
-    return out
+    return out, fresh
 
 
 # ---------------------------------------------------------------------------------------------------
@@ -375,6 +379,14 @@ def _parse_tree(ti):
 
 def _canon_id(c):
     return hashlib.md5(repr(c).encode()).hexdigest()
+
+
+SCALAR_OPS = {"set-str", "set-bool", "set-none"}
+
+
+def _sig(root):
+    """cheap structural signature: which node objects are stored where (scalar edits are recognised by op name)"""
+    return tuple((id(n), id(h), k, i) for n, h, k, i in nodes(root))
 
 
 def _fresh_hash(t):
@@ -413,22 +425,22 @@ def explore_item(item):
             root = r.root
         inp = {"tree": TREES[ti], "ops": seq}
         op = seq[-1]
-        before_struct = fingerprint(root, ids=True, sql=False)
+        before_sig = _sig(root)
         res = apply_op(root, op, check=True)
         st["seqs"] += 1
         st["calls"][op[0]] = st["calls"].get(op[0], 0) + 1
         if res.exc is not None:
             key = f"{op[0]}:{type(res.exc).__name__}"
             st["exc"][key] = st["exc"].get(key, 0) + 1
-        v = check_state(res, op, inp)
+        v, res_fresh = check_state(res, op, inp)
         st["evals"] += 1
-        if fingerprint(res.root, ids=True, sql=False) != before_struct or op[0] in HASH_OPS:
+        if op[0] in HASH_OPS or op[0] in SCALAR_OPS or _sig(res.root) != before_sig:
             st["nontrivial"] += 1
         # equality clause on the live tree (done last: it populates caches, the tree is discarded afterwards)
         if isinstance(res.root, Expr) and not any(x["key"].split(":")[1] == "stale-hash" for x in v):
             c = canon(res.root)
             cid = _canon_id(c)
-            fh = _fresh_hash(res.root)
+            fh = res_fresh
             if fh is not None:
                 prev = st["canon"].get(cid)
                 if prev is not None and prev != (type(res.root).__name__, fh):
